@@ -56,6 +56,7 @@ type World struct {
 	Class    string           `json:"class,omitempty"`
 	Detail   string           `json:"detail,omitempty"`
 	Digest   string           `json:"event_digest,omitempty"`
+	RDigest  string           `json:"result_digest,omitempty"` // observable events only: what a replay must reproduce
 	Faults   map[string]int64 `json:"faults_fired,omitempty"`
 	// Sequence: the violation needs library state left behind by earlier worlds of the same process
 	// (package-level caches and the like): the replay is this list of world indices, executed in order.
@@ -272,6 +273,8 @@ type X struct {
 	NonTrivial    bool
 	Sig           strings.Builder // state signature material
 	digests       []string
+	rdigests      []string
+	RDig          string // digest of the observable events (operations, results, collected output)
 	AllEvents     []string
 	Replay        bool
 	genRng        *Rng // run-time generation (preemption points); results are stored in the world
@@ -347,6 +350,7 @@ func (x *X) foldRun() {
 	}
 	x.Steps += x.R.Steps
 	x.digests = append(x.digests, x.R.Digest())
+	x.rdigests = append(x.rdigests, x.R.RDigest())
 	if x.Trace {
 		x.AllEvents = append(x.AllEvents, x.R.Events...)
 	}
@@ -357,6 +361,7 @@ func (x *X) Finish() string {
 	x.foldRun()
 	x.R = nil
 	simrt.Uninstall()
+	x.RDig = strings.Join(x.rdigests, "-")
 	return strings.Join(x.digests, "-")
 }
 
